@@ -2,6 +2,9 @@
 #ifndef C01_BATTERY_H
 #define C01_BATTERY_H
 
+/* queries are journaled only in verbose replays, so that the journal tail printed with a violation shows the mutating history */
+#define QOP(...) do { if (vh_verbose) vh_op(__VA_ARGS__); } while (0)
+
 static int sgn(long x) { return x < 0 ? -1 : x > 0 ? 1 : 0; }
 static int ref_cmp(const char *a, long la, const char *b, long lb, int fold)
 {
@@ -58,17 +61,17 @@ static void q_index(slot_t *s)
         unsigned char c = (unsigned char) m[vh_below((uint64_t) len)];
         long first = (long) ((const char *) memchr(m, c, (size_t) len) - m), last = len - 1;
         while ((unsigned char) m[last] != c) last--;
-        vh_op("  ? index(0x%02x) r%d", c, r);
+        QOP("  ? index(0x%02x) r%d", c, r);
         idx_t g = c_index(r, o, (spif_char_t) c);
         vh_evals(1);
         if (g != first) vh_fail(key("index", "present"), "index(0x%02x) = %lld, first occurrence in the ideal sequence is %ld (len %ld)", c, (long long) g, first, len);
-        vh_op("  ? rindex(0x%02x) r%d", c, r);
+        QOP("  ? rindex(0x%02x) r%d", c, r);
         g = c_rindex(r, o, (spif_char_t) c);
         vh_evals(1);
         if (g != last) vh_fail(key("rindex", "present"), "rindex(0x%02x) = %lld, last occurrence in the ideal sequence is %ld (len %ld)", c, (long long) g, last, len);
     }
     if (absent > 0) {
-        vh_op("  ? index/rindex(absent 0x%02x) r%d", absent, r);
+        QOP("  ? index/rindex(absent 0x%02x) r%d", absent, r);
         idx_t g = c_index(r, o, (spif_char_t) absent);
         vh_evals(1);
         if (g != len) vh_fail(key("index", "absent"), "index of absent 0x%02x = %lld, 'not found' must be the length %ld", absent, (long long) g, len);
@@ -84,7 +87,7 @@ static void q_find_one(slot_t *s, const char *nd, long nl, const char *what)
     obj_t o = s->o;
     long want = m_find(s->m, s->mlen, nd, nl);
     int r = (int) vh_below(2);
-    vh_op("  ? find %s needle=%s r%d", what, vh_q(nd, nl > 40 ? 40 : nl), r);
+    QOP("  ? find %s needle=%s r%d", what, vh_q(nd, nl > 40 ? 40 : nl), r);
     obj_t x = mk_other(nd, nl);
     idx_t g = c_find(r, o, x);
     c_del(0, x);
@@ -133,10 +136,10 @@ static void q_substr_at(slot_t *s, idx_t idx, idx_t cnt, int r)
     obj_t o = s->o; long len = s->mlen; const char *m = s->m;
     long from = 0, n = 0;
     int ok = m_substr(len, idx, cnt, &from, &n);
-    vh_op("  ? substr(%lld,%lld) r%d", (long long) idx, (long long) cnt, r);
+    QOP("  ? substr(%lld,%lld) r%d", (long long) idx, (long long) cnt, r);
     obj_t x = c_substr(r, o, idx, cnt);
     vh_evals(1);
-    vh_cov(vh_mix(vh_mix(0x5b, (uint64_t) state_class(s)), (uint64_t) (idx_class(idx, len) * 64 + (cnt > 0 ? (cnt < len ? 1 : cnt == len ? 2 : 3) : cnt == 0 ? 4 : (cnt > -len ? 5 : 6)) * 2 + ok)));
+    COV(vh_mix(vh_mix(0x5b, (uint64_t) state_class(s)), (uint64_t) (idx_class(idx, len) * 64 + (cnt > 0 ? (cnt < len ? 1 : cnt == len ? 2 : 3) : cnt == 0 ? 4 : (cnt > -len ? 5 : 6)) * 2 + ok)));
     if (!ok) {
         vh_count("q_substr_refused", 1);
         if (x) vh_fail(key("substr", "refused"), "substr(%lld,%lld) on length %ld must be refused, returned %s", (long long) idx, (long long) cnt, len, x->s ? vh_q(x->s, (long) strnlen((char *) x->s, 40)) : "an object");
@@ -148,7 +151,7 @@ static void q_substr_at(slot_t *s, idx_t idx, idx_t cnt, int r)
         if (!IS_MY_CLASS(x)) vh_fail(key("substr", "class"), "substr result is not of class " CLASSNAME);
         c_del(0, x);
     }
-    vh_op("  ? substr_to_ptr(%lld,%lld) r%d", (long long) idx, (long long) cnt, r);
+    QOP("  ? substr_to_ptr(%lld,%lld) r%d", (long long) idx, (long long) cnt, r);
     char *p = c_substr_to_ptr(r, o, idx, cnt);
     vh_evals(1);
     if (!ok) {
@@ -174,7 +177,7 @@ static void q_cmp_one(slot_t *s, const char *b, long lb, const char *what)
     idx_t n;
     switch (vh_below(6)) { case 0: n = 0; break; case 1: n = len; break; case 2: n = lb; break; case 3: n = (len < lb ? len : lb) + 1; break;
                            case 4: n = vh_range(0, (len > lb ? len : lb) + 2); break; default: n = (len < lb ? len : lb); break; }
-    vh_op("  ? cmp-family vs %s %s n=%lld r%d", what, vh_q(b, lb > 30 ? 30 : lb), (long long) n, r);
+    QOP("  ? cmp-family vs %s %s n=%lld r%d", what, vh_q(b, lb > 30 ? 30 : lb), (long long) n, r);
     obj_t x = mk_other(b, lb);
     char *p = mk_ptr(b, lb);
     int want, got;
@@ -217,7 +220,7 @@ static void q_cmp(slot_t *s)
     }
     if (vh_coin(10)) {         /* NULL other -> GREATER (Appendix A.1) */
         int r = (int) vh_below(2);
-        vh_op("  ? cmp vs NULL r%d", r);
+        QOP("  ? cmp vs NULL r%d", r);
         int g1 = (int) c_cmp(r, s->o, (obj_t) NULL), g2 = (int) c_cmp_with_ptr(r, s->o, NULL), g3 = (int) c_ncasecmp(r, s->o, (obj_t) NULL, 3);
         vh_evals(3);
         if (g1 != SPIF_CMP_GREATER || g2 != SPIF_CMP_GREATER || g3 != SPIF_CMP_GREATER)
@@ -230,7 +233,7 @@ static void q_num(slot_t *s)
     static const int bases[4] = { 0, 8, 10, 16 };
     obj_t o = s->o;
     int r = (int) vh_below(2);
-    vh_op("  ? to_num/to_float r%d", r);
+    QOP("  ? to_num/to_float r%d", r);
     for (int i = 0; i < 4; i++) {
         size_t want = (size_t) strtoul(s->m, NULL, bases[i]);
         size_t got = c_to_num(r, o, bases[i]);
